@@ -89,7 +89,8 @@ type Exec struct {
 	Reached   map[string]bool
 	FuncSteps map[string]int
 	initing   map[*ssa.Package]bool
-	timers    []*CtxV
+	timers    []*timerEnt
+	timerObjs map[*Object]*timerEnt
 	ctxSeq    int
 	bgCtx     *CtxV
 	timerFires int
